@@ -13,6 +13,7 @@ package main
 // what the fault plan "should" have caused — only what the body and the driver actually saw.
 
 import (
+	"database/sql"
 	"errors"
 	"fmt"
 	"strings"
@@ -215,6 +216,12 @@ func checkProtocol(c Case, o *Obs, returned bool) []verdict {
 	}
 	if o.HitCommit && !reports(o.Err, errCommit) {
 		return one("commit-error-not-reported", "Commit failed with %q but the returned error %q does not carry it", errCommit, o.Err.Error())
+	}
+	// "ends it exactly once": database/sql hides a second Commit/Rollback from the driver (it answers
+	// sql.ErrTxDone itself), so a termination attempted twice shows only as that error leaking into
+	// the returned error — reported as a rollback failure that never happened
+	if o.HitCommit && !o.HitRollback && errors.Is(o.Err, sql.ErrTxDone) {
+		return one("terminated-twice:rollback-after-failed-commit", "Commit failed with %q and a second termination was attempted: the returned error %q carries sql.ErrTxDone", errCommit, o.Err.Error())
 	}
 	if o.HitRollback && !reports(o.Err, errRollback) {
 		k := "body-error"
